@@ -314,6 +314,23 @@ def specIteCol (cc ct ce : SCol) : KOut SCol :=
     | _, _ => .err
   | _ => .err
 
+/-- Searched / simple CASE with several WHEN branches, as `Binder::bind_case` builds it: nested `if`
+nodes, the FIRST WHEN outermost, ELSE (or NULL) innermost. (`CASE x WHEN v …`: condition `x = v`.) -/
+def caseOf : List (KExpr × KExpr) → KExpr → KExpr
+  | [], el => el
+  | (c, r) :: rest, el => .ite c r (caseOf rest el)
+
+/-- The desugaring on the scalars of one row. -/
+def caseS {α} : List (Option Bool × Option α) → Option α → Option α
+  | [], el => el
+  | (c, r) :: rest, el => specSelect c r (caseS rest el)
+
+/-- Scalar SQL semantics of CASE read off the SQL text: the result of the first WHEN (in source order)
+whose condition is TRUE; ELSE when none is (FALSE and NULL conditions do not select). -/
+def firstTrue {α} : List (Option Bool × Option α) → Option α → Option α
+  | [], el => el
+  | (c, r) :: rest, el => if c = some true then r else firstTrue rest el
+
 /-- SQL semantics of the expression language, row by row (every operator is `rows1/rows2` of a
 scalar function of ONE row, so the result at row i depends on row i alone by construction). -/
 def specEval (chunk : List SCol) (n : Nat) : KExpr → KOut SCol
